@@ -33,6 +33,11 @@ pub fn take() -> Vec<Ev> {
     std::mem::take(&mut *LOG.lock().unwrap())
 }
 
+/// the log so far, without consuming it
+pub fn peek() -> Vec<Ev> {
+    LOG.lock().unwrap().clone()
+}
+
 pub fn end() -> Vec<Ev> {
     RECORDING.store(false, Ordering::SeqCst);
     take()
